@@ -383,7 +383,46 @@ def run_factory(case, part):
                         part.violation("C18/factory/defaults-changed-by-create/%s" % p, "a create() call changed the factory defaults seen by the next call", c, want, o2.get(p))
 
 
+def run_growing(case, part):
+    """HISTORY on long-lived navigation layers: an Environment (and a second one, and a composite) answers, then content arrives by ANOTHER route - straight into the
+    store the environment was built on, or as one more member source - and the same questions are asked again: every answer equals a scan of what is held NOW"""
+    from stix2 import CompositeDataSource, Environment, MemorySource, MemoryStore
+    env.reset()
+    route = case["route"]
+    first = ["X1", "Y", "I", "R1"]
+    later = ["I2", "X2", "R2", "R1b"]
+    if route in ("store.add", "second-environment", "store.sink.add"):
+        store = MemoryStore([obj(n) for n in first])
+        e1 = Environment(store=store)
+        targets = [("environment", e1), ("store", store)]
+        e2 = Environment(store=store)
+        if route == "second-environment":
+            targets.append(("second-environment", e2))
+    else:
+        comp = CompositeDataSource()
+        comp.add_data_source(MemorySource([obj(n) for n in first]))
+        e1 = Environment(source=comp)
+        targets = [("environment(source=composite)", e1), ("composite", comp)]
+    c0 = dict(case, members=[first], phase="before")
+    for label, t in targets:
+        check_target(label + "/long-lived", t, first, part, c0, None)
+    if route == "store.add":
+        store.add([obj(n) for n in later])
+    elif route == "store.sink.add":
+        store.sink.add([obj(n) for n in later])
+    elif route == "second-environment":
+        e2.add([obj(n) for n in later])
+    else:
+        comp.add_data_source(MemorySource([obj(n) for n in later]))
+    c1 = dict(case, members=[first, later], phase="after content arrived by another route")
+    for label, t in targets:
+        check_target(label + "/long-lived", t, first + later, part, c1, None)
+    part.state(("growing-navigation", route), nontrivial=True)
+
+
 def run_case(case, part):
+    if case.get("kind") == "growing-navigation":
+        return run_growing(case, part)
     if "factory" in case or case.get("kind") == "factory":
         run_factory(case, part)
     else:
@@ -394,6 +433,8 @@ def replay(case, part):
     c = {k: v for k, v in case.items() if k not in ("via", "id", "query", "obj", "form", "options", "filter")}
     if "factory" in c:
         return run_factory(c, part)
+    if c.get("kind") == "growing-navigation":
+        return run_growing({"kind": "growing-navigation", "route": c["route"]}, part)
     c["environment"] = True
     c["env_navigation"] = True
     c["single_store"] = True
@@ -413,7 +454,7 @@ def assignments(names, nmembers):
 
 def run(run):
     th = run.thorough
-    cases = [{"kind": "factory"}]
+    cases = [{"kind": "factory"}] + [{"kind": "growing-navigation", "route": r} for r in ("store.add", "store.sink.add", "second-environment", "composite.add_data_source")]
     # (a) every assignment of the 8-element population to non-empty subsets of 2 members x both attachment orders
     n = 0
     for members in assignments(POP8, 2):
